@@ -36,8 +36,12 @@ ASSUMPTIONS = ["digits in numeric positions are ASCII; ids, counts and multiplic
                "without sign or underscore (int() and \\d accept more than the model's reader)",
                "write(path) first assigns basename(path) to an empty file_name; the harness applies the same assignment "
                "(\"f.cat\") to the instance it hands to the model",
-               "generated names and metadata contain no line-boundary character, no leading/trailing whitespace and "
-               "no lone surrogate (the quantifier's single-line text)"]
+               "generated names and metadata contain no leading/trailing whitespace, no lone surrogate and no line "
+               "boundary, except: ~150 quick / 2500 thorough instances carry one of the eight splitlines-only boundaries "
+               "(\\x0b \\x0c \\x1c \\x1d \\x1e \\x85 U+2028 U+2029) strictly inside a value; these are single-line for a "
+               "file reader only and are checked through the FILE entry points only (parse_file, CategoricalInstance(path), "
+               "get_parsed_instance; theorems C08_roundtrip_file / C08_sorted_idempotent_file under wf_cat_rl) - "
+               "parse_str is not claimed for them"]
 TIMEOUT_S = 60.0
 COVER_FILES = ["instances/preflibinstance/categorical.py", "instances/preflibinstance/instance.py"]
 CHUNK = 25
